@@ -269,6 +269,47 @@ def evaluate_session(ctx, splan, want_events=False):
     return rec
 
 
+def evaluate_concurrent(ctx, cplan, want_events=False):
+    """Two overlapping invocations (see env.run_interleaved).  Each must produce what it produces
+    when it has the machine to itself: same success, and - if the bytes differ - still a header
+    that passes the build/compare oracle for *its own* selection."""
+    a, b = cplan["concurrent"]
+    outs = ctx.pool.run_interleaved(a, b, cplan["preempt_permille"], hashseed=cplan.get("hashseed", 0), want_events=want_events, step_budget=ctx.step_budget, event_cap=ctx.event_cap)
+    rec = {"run": cplan.get("run"), "kind": "concurrent", "violations": [], "inconclusive": None, "steps": [], "trace_hashes": [], "harness_error": None}
+    for who, inv, (res, data) in zip("AB", (a, b), outs):
+        rec["trace_hashes"].append(res["trace_hash"])
+        frec, fres, fdata = evaluate_twin(ctx, inv, build=False)
+        rec["trace_hashes"].append(fres["trace_hash"])
+        step = {"who": who, "status": res["status"], "solo_status": fres["status"], "out_len": res["out_len"], "solo_out_len": fres["out_len"], "overlay_files": res.get("overlay_files"), "preempted_at": res.get("preempted_at"), "of": res.get("preempted_of"), "probes": res["probes"]}
+        if want_events:
+            step["events"] = res.get("events")
+        rec["steps"].append(step)
+        if frec["violations"]:
+            step["outcome"] = "solo run fails too"
+            continue
+        d = {"who": who, "status": res["status"], "exc": res["exc"], "tb_tail": res["tb_tail"], "overlay_files": res.get("overlay_files"), "selection": inv["selection"], "preempt_permille": cplan["preempt_permille"], "preempted_at": outs[0][0].get("preempted_at"), "of": outs[0][0].get("preempted_of")}
+        if res["hang"] or res["status"] != 0:
+            d["what"] = "hang" if res["hang"] else "non-zero status"
+            rec["violations"].append({"class": "CONCURRENCY_DEPENDENT", "sig": "CONCURRENCY_DEPENDENT|%s|%s|%s" % (who, d["what"], res["exc"]), "detail": d})
+            continue
+        if data == fdata or _oracle.code_lines(data) == _oracle.code_lines(fdata):
+            step["outcome"] = "same code as alone"
+            continue
+        v, detail = _oracle.judge_twin(ctx.builder, ctx.tree, inv, data, extra_toolchain=False)
+        step["escalated"] = v
+        if v == "HARNESS":
+            rec["harness_error"] = detail
+            break
+        if v in ("NOT_SELF_CONTAINED", "RESULT_MISMATCH", "NOT_MULTI_TU_SAFE"):
+            fv, _ = _oracle.judge_twin(ctx.builder, ctx.tree, inv, fdata, extra_toolchain=False)
+            if fv is None:
+                d.update({"what": "header differs from the one produced alone and fails the oracle", "oracle_class": v, "oracle": detail, "out_len": res["out_len"], "solo_out_len": fres["out_len"]})
+                rec["violations"].append({"class": "CONCURRENCY_DEPENDENT", "sig": "CONCURRENCY_DEPENDENT|%s|%s" % (who, v), "detail": d})
+                continue
+        step["outcome"] = "differs from the solo run, still valid" if v is None else "escalated_%s" % v
+    return rec
+
+
 def evaluate_case(ctx, case, want_events=False):
     """Evaluate an arbitrary case (used by replay and by the minimiser).  Returns a dict with
     `violations` (list of {class, sig, detail}) and the trace hashes of the executions involved."""
@@ -278,6 +319,9 @@ def evaluate_case(ctx, case, want_events=False):
         if v == "HEADER_NOT_STANDALONE":
             viol.append({"class": v, "sig": signature(v, detail), "detail": detail})
         return {"twin": {"events": None}, "faulty": None, "violations": viol, "trace_hashes": [], "harness_error": detail if v == "HARNESS" else None, "inconclusive": v == "BOTH_REJECT"}
+    if "concurrent" in case:
+        crec = evaluate_concurrent(ctx, case, want_events=want_events)
+        return {"twin": {"events": None}, "faulty": None, "session": crec, "violations": list(crec["violations"]), "trace_hashes": crec["trace_hashes"], "harness_error": crec.get("harness_error")}
     if "session" in case:
         srec = evaluate_session(ctx, case, want_events=want_events)
         return {"twin": {"events": None}, "faulty": None, "session": srec, "violations": list(srec["violations"]), "trace_hashes": srec["trace_hashes"], "harness_error": srec.get("harness_error")}
